@@ -328,6 +328,94 @@ def rules(ck, P):
                         fin = True
             ck.check(fin, "P4", b["q"] + "|flush-final", "a non-empty remainder is flushed after the loop", "the remainder after the loop is not flushed", ir.loc(b))
 
+    # ---- P7: the concurrency limit is positive.  buffer_unordered(0) / buffered(0) never polls its source: the output neither yields nor
+    # ends, so a stream (an empty one is enough) never completes and a consumer walking several sub-streams is stuck on it.
+    n_lim = 0
+    for b in ts + [x for x in P.bodies if x["crate"] in ("versatiles_core", "versatiles_container", "versatiles_pipeline") and x not in ts and "::tests::" not in x["q"]]:
+        lets = comp_lets(b)
+        for n in ir.walk_nodes(b["body"]):
+            if n.get("k") == "mcall" and n.get("name") in ("buffer_unordered", "buffered", "for_each_concurrent", "try_for_each_concurrent", "ready_chunks", "chunks") and "futures" in (n.get("q") or ""):
+                n_lim += 1
+                a = n["a"][0]
+                why = _positive(P, a, lets, 0)
+                ck.check(why is None, "P7", "%s|%s-limit" % (b["q"], n["name"]), "the limit passed to %s is positive (num_cpus::get(), a positive constant, or max(.., 1))" % n["name"],
+                         "the limit passed to %s is not shown to be >= 1 (%s): with 0 the adaptor never polls its source, the stream neither yields nor ends" % (n["name"], why), ir.loc(n))
+    ck.anchor("P7", "buffering adaptors with a limit", n_lim, 3)
+
+
+def comp_lets(b):
+    out = {}
+    for n in ir.walk_nodes(b["body"]):
+        if n.get("k") == "let" and "init" in n and n["pat"].get("k") == "bind":
+            out[n["pat"]["hid"]] = n["init"]
+    return out
+
+
+def _positive(P, e, lets, depth):
+    """None if the expression is >= 1 on every path, else a reason"""
+    e = ir.unparen(ir.strip(e))
+    if depth > 6:
+        return "too deep"
+    k = e.get("k")
+    c = ir.const_eval(e, {})
+    if c is not None:
+        return None if c >= 1 else "constant %s" % c
+    if k == "cast":
+        return _positive(P, e["e"], lets, depth + 1)
+    if k == "path" and e.get("r") == "local":
+        if e["hid"] in lets:
+            return _positive(P, lets[e["hid"]], lets, depth + 1)
+        return "`%s` is a parameter / pattern binding" % e.get("name")
+    if k == "call":
+        q = e.get("q") or ""
+        if q in ("num_cpus::get", "num_cpus::get_physical") or q.endswith("available_parallelism"):
+            return None
+        if q.endswith(("cmp::max",)):
+            return None if any(_positive(P, a, lets, depth + 1) is None for a in e["a"]) else "max of values not known positive"
+        if q.endswith(("cmp::min",)):
+            rs = [_positive(P, a, lets, depth + 1) for a in e["a"]]
+            return None if all(r is None for r in rs) else "min with %s" % next(r for r in rs if r)
+        cal = P.fn(q)
+        if cal is not None and P.is_workspace(q):
+            blk = ir.fn_block(cal)
+            t = blk.get("tail") if isinstance(blk, dict) else None
+            if t is None:
+                return "result of %s" % q.rsplit("::", 1)[-1]
+            r = _positive(P, t, comp_lets(cal), depth + 1)
+            return None if r is None else "%s returns a value not known positive: %s" % (q.rsplit("::", 1)[-1], r)
+        return "result of %s" % q.rsplit("::", 1)[-1]
+    if k == "mcall":
+        nm = e.get("name")
+        if nm == "max":
+            return None if (_positive(P, e["recv"], lets, depth + 1) is None or _positive(P, e["a"][0], lets, depth + 1) is None) else "max of values not known positive"
+        if nm == "min":
+            rs = [_positive(P, e["recv"], lets, depth + 1), _positive(P, e["a"][0], lets, depth + 1)]
+            return None if all(r is None for r in rs) else "min with %s" % next(r for r in rs if r)
+        if nm == "clamp":
+            return _positive(P, e["a"][0], lets, depth + 1)
+        if nm in ("unwrap_or", "map_or"):
+            d = _positive(P, e["a"][0], lets, depth + 1)
+            if d is not None:
+                return d
+            if nm == "map_or":
+                clo = ir.strip(e["a"][1])
+                if clo.get("k") == "closure":
+                    r = _positive(P, clo["body"], lets, depth + 1)
+                    return None if r is None else "map_or closure: %s" % r
+                return "map_or with a non-closure"
+            return "the Some value is not known positive"
+        if nm == "get" and (e.get("q") or "").startswith("core::num::nonzero"):
+            return None
+        return "result of .%s()" % nm
+    if k == "bin" and e.get("op") == "+":
+        return None if (_positive(P, e["l"], lets, depth + 1) is None or _positive(P, e["r"], lets, depth + 1) is None) else "sum of values not known positive"
+    if k == "if":
+        rs = [_positive(P, e["then"], lets, depth + 1)] + ([_positive(P, e["els"], lets, depth + 1)] if "els" in e else ["no else"])
+        return None if all(r is None for r in rs) else next(r for r in rs if r)
+    if k == "block" and "tail" in e:
+        return _positive(P, e["tail"], lets, depth + 1)
+    return "expression of kind %s" % k
+
 
 def _none_only_for_none(pc):
     """filter_map closure: returns None only if the task result's Option is None (or the JoinHandle failed)"""
